@@ -151,5 +151,6 @@ def run(ctx: Ctx) -> None:
     c04_contexts.run(ctx)
     ctx.resolve_broken({"derived_nodes_are_leaves": "visits:", "schedules_are_permutations": "visits:",
                         "every_node_once": "visits:", "spec_children_covered": "visits:",
-                        "every_check_once": "visits:", "subscription_exact": "visits:"},
+                        "every_check_once": "visits:", "subscription_exact": "visits:",
+                        "translate visitor (traverser.py, visitor.py, mapping.py, mypy sources)": ("visits:", "context:")},
                        b.first_error if b else "")
